@@ -193,6 +193,10 @@ func runC06(c *fw.Ctx) {
 	for i := 0; i < c.Pick(2000, 20000); i++ {
 		c.Case(func(k *fw.K) { c06IndexReuse(k) })
 	}
+	// tensors that took part in REJECTED calls are used again
+	for i := 0; i < c.Pick(2000, 20000); i++ {
+		c.Case(func(k *fw.K) { rejectThenReuse(k, RandShape(k.Rng, 0, 4, 3)) })
+	}
 	// ---- chains: operands with a history ----
 	for i := 0; i < c.Pick(4000, 60000); i++ {
 		c.Case(func(k *fw.K) {
